@@ -1,5 +1,6 @@
 import Driver.Proto
 import PtVerif.Model.FormulaOps
+import PtVerif.Model.Symbols
 import Std.Data.HashMap
 /-! Driver sub-command `formula`: the formula algebra (C02, C19) at `Float`. -/
 namespace Driver.FormulaCmd
@@ -15,6 +16,8 @@ def init : St := {}
 
 def St.massFn (st : St) (z a : Nat) : Float := (st.mass.get? (z, a)).getD (0.0 / 0.0)
 def St.symFn (st : St) (z a : Nat) : Nat :=
+  -- `sym` lines (a private table's symbols) override the generated table
+  if st.sym.isEmpty then symOf z a else
   match st.sym.get? (z, a) with
   | some s => s
   | none => (st.sym.get? (z, 0)).getD 0
